@@ -54,6 +54,10 @@ def body(chk):
     for j in range(16):
         cases.append(dict(level="1.5", seed=chk.seed + 720 + j, k=j % K, files=("VOL",), images=(("HH", None, 1, 1),), fs="local", blank_text=j,
                           ctx=dict(creation_datetime=STAMPS[j % len(STAMPS)]), stamp=f"blank-{j}"))
+    # the file continues after its last record (padded to a 512-byte block with NULs / blanks, or followed by other bytes)
+    for j, tr in enumerate([("nul", 152), ("blank", 512), ("junk", 45), ("nul", 1)]):
+        cases.append(dict(level="1.5", seed=chk.seed + 760 + j, k=j, files=("VOL",), images=(("HH", None, 1, 1),), nfp=(None, 0, 12, 3)[j], fs=("local", "vtrace")[j % 2],
+                          vol_trailing=tr, ctx=dict(creation_datetime=STAMPS[j % len(STAMPS)]), stamp=f"trailing-{tr[0]}{tr[1]}"))
     # all text fields blank at once (padding only): attributes are empty strings, nothing else changes
     results, total = lc.replay(chk, cases, "volume", lambda c: f"plan={c['k']}{'r' if c.get('random_classes') else ''}:nfp={c.get('nfp')}" + (f":stamp={c['stamp'][12:]}" if c.get("stamp") else ""))
     ok = next(r for r in results if r["open"] == "ok")
